@@ -338,7 +338,11 @@ func (ex *Executor) dispatchCall(st *State, fr *Frame, cc *ssa.CallCommon, fv Va
 				return finish(ex.havocResults(st, fn.Signature, "rec"))
 			}
 		}
-		nf := ex.newFrame(fn, spec, fr.depth+1)
+		fspec := spec
+		if spec != nil && spec.Inline {
+			fspec = nil // inlined bodies are executed as they are: the callee's own loop cuts and rows do not apply
+		}
+		nf := ex.newFrame(fn, fspec, fr.depth+1)
 		if len(args) != len(fn.Params) {
 			ex.errf("%s: arity mismatch calling %s", ex.unitKey, dname)
 			return finish(ex.havocResults(st, fn.Signature, "arity"))
